@@ -232,7 +232,9 @@ pub fn safe_approximation(limited: &Sol, full: &Sol) -> Result<(), String> {
                     if sig.value.is_identity_subst(ChalkIr) {
                         Ok(())
                     } else {
-                        Err("interrupted solve claims definite guidance although the full answer has none".into())
+                        // not "weaker" than the full answer; whether it contradicts anything is for the reference
+                        // model to say (C11 asks `Ref` whether the guidance excludes a solution)
+                        Err("UNBACKED: interrupted solve claims definite guidance although the full answer has none".into())
                     }
                 }
             },
@@ -256,7 +258,7 @@ pub fn names_fmt(s: &Sol) -> String {
 
 // ------------------------------------------------------------------ C28: structural well-formedness of answers
 
-use chalk_ir::visit::{TypeVisitable, TypeVisitor};
+use chalk_ir::visit::{TypeSuperVisitable, TypeVisitable, TypeVisitor};
 use std::ops::ControlFlow;
 
 struct WfVisitor {
@@ -265,12 +267,97 @@ struct WfVisitor {
     problems: Vec<String>,
     kinds: Vec<u8>, // 0 ty, 1 lifetime, 2 const — of the answer's own binders
     used: Vec<usize>,
+    /// parameter kinds of the binders opened inside the value on the way to the current position (`for<..> fn(..)`,
+    /// `dyn` and its quantified where-clauses), outermost first; entry d belongs to the binder entered at depth d
+    levels: Vec<Vec<u8>>,
+}
+
+impl WfVisitor {
+    /// a bound variable used as a type (0), lifetime (1) or const (2) at binder depth `ob`
+    fn bound(&mut self, bv: BoundVar, ob: DebruijnIndex, usage: u8) {
+        let names = ["type", "lifetime", "const"];
+        match bv.shifted_out_to(ob) {
+            Some(f) => {
+                if f.debruijn != DebruijnIndex::INNERMOST {
+                    self.problems.push(format!("variable {:?} escapes the solution's own binders", bv));
+                } else if f.index >= self.n_binders {
+                    self.problems.push(format!("variable ^0.{} but the solution binds only {} variables", f.index, self.n_binders));
+                } else {
+                    if self.kinds[f.index] != usage {
+                        self.problems.push(format!("solution variable ^0.{} is bound as a {} but used as a {}", f.index, names[self.kinds[f.index] as usize], names[usage as usize]));
+                    }
+                    if !self.used.contains(&f.index) {
+                        self.used.push(f.index);
+                    }
+                }
+            }
+            None => {
+                // captured by a binder inside the value: that binder must have such a parameter, of that kind
+                let abs = (ob.depth() - 1 - bv.debruijn.depth()) as usize;
+                if let Some(kinds) = self.levels.get(abs) {
+                    match kinds.get(bv.index) {
+                        None => self.problems.push(format!("bound variable {:?} is captured by an inner binder that has only {} parameter(s): no binder binds it", bv, kinds.len())),
+                        Some(k) if *k != usage => self.problems.push(format!("bound variable {:?} is captured by an inner binder whose parameter is a {} but it is used as a {}", bv, names[*k as usize], names[usage as usize])),
+                        _ => {}
+                    }
+                }
+            }
+        }
+    }
 }
 
 impl TypeVisitor<ChalkIr> for WfVisitor {
     type BreakTy = ();
     fn as_dyn(&mut self) -> &mut dyn TypeVisitor<ChalkIr, BreakTy = ()> {
         self
+    }
+    fn visit_ty(&mut self, ty: &Ty<ChalkIr>, ob: DebruijnIndex) -> ControlFlow<()> {
+        match ty.kind(ChalkIr) {
+            TyKind::BoundVar(bv) => {
+                self.bound(*bv, ob, 0);
+                ControlFlow::Continue(())
+            }
+            TyKind::Function(f) => {
+                let d = ob.depth() as usize;
+                self.levels.truncate(d);
+                self.levels.push(vec![1u8; f.num_binders]);
+                let r = ty.super_visit_with(self.as_dyn(), ob);
+                self.levels.truncate(d);
+                r
+            }
+            TyKind::Dyn(dy) => {
+                let d = ob.depth() as usize;
+                dy.lifetime.visit_with(self.as_dyn(), ob)?;
+                self.levels.truncate(d);
+                self.levels.push(dy.bounds.binders.iter(ChalkIr).map(kind_code).collect());
+                for qwc in dy.bounds.skip_binders().iter(ChalkIr) {
+                    self.levels.truncate(d + 1);
+                    self.levels.push(qwc.binders.iter(ChalkIr).map(kind_code).collect());
+                    qwc.skip_binders().visit_with(self.as_dyn(), ob.shifted_in().shifted_in())?;
+                }
+                self.levels.truncate(d);
+                ControlFlow::Continue(())
+            }
+            _ => ty.super_visit_with(self.as_dyn(), ob),
+        }
+    }
+    fn visit_lifetime(&mut self, lt: &Lifetime<ChalkIr>, ob: DebruijnIndex) -> ControlFlow<()> {
+        match lt.data(ChalkIr) {
+            LifetimeData::BoundVar(bv) => {
+                self.bound(*bv, ob, 1);
+                ControlFlow::Continue(())
+            }
+            _ => lt.super_visit_with(self.as_dyn(), ob),
+        }
+    }
+    fn visit_const(&mut self, c: &Const<ChalkIr>, ob: DebruijnIndex) -> ControlFlow<()> {
+        match &c.data(ChalkIr).value {
+            ConstValue::BoundVar(bv) => {
+                self.bound(*bv, ob, 2);
+                ControlFlow::Continue(())
+            }
+            _ => c.super_visit_with(self.as_dyn(), ob),
+        }
     }
     fn visit_free_var(&mut self, bv: BoundVar, outer_binder: DebruijnIndex) -> ControlFlow<()> {
         match bv.shifted_out_to(outer_binder) {
@@ -329,7 +416,7 @@ pub fn wellformed_subst(g: &crate::exec::G, binders: &CanonicalVarKinds<ChalkIr>
             problems.push(format!("entry {} has kind {} but the query's unknown has kind {}", i, got, want));
         }
     }
-    let mut v = WfVisitor { n_binders: binders.len(ChalkIr), universes: g.universes, problems: vec![], kinds: binders.iter(ChalkIr).map(|b| kind_code(&b.kind)).collect(), used: vec![] };
+    let mut v = WfVisitor { n_binders: binders.len(ChalkIr), universes: g.universes, problems: vec![], kinds: binders.iter(ChalkIr).map(|b| kind_code(&b.kind)).collect(), used: vec![], levels: vec![] };
     let _ = subst.visit_with(&mut v, DebruijnIndex::INNERMOST);
     // binders that the substitution actually uses must live in universes the query can name
     let used = std::mem::take(&mut v.used);
